@@ -311,9 +311,11 @@ def g4(F, res):
     for bb, t in c.calls():
         if bb in after and bb != cb:
             n = norm_path(callee_name(t) or '')
-            if n.endswith('FromResidual::from_residual'):
+            if 'FromResidual' in n and n.endswith('::from_residual'):
                 later_fallible.append(bb)
     # its own `?` produces exactly one from_residual
+    if not any('FromResidual' in norm_path(callee_name(t) or '') for _, t in c.calls()):
+        res.error('on_parse/last-fallible-step: no `?` exit recognised anywhere in Module::parse')
     if len(later_fallible) <= 1:
         res.ok('on_parse/last-fallible-step', {'error_exits_after_callback': len(later_fallible)})
     else:
